@@ -35,11 +35,18 @@ PYTHON_SEMANTICS = [
 
 
 def load_known():
+    out = []
     p = os.path.join(VERIF, 'known_findings.json')
-    if not os.path.exists(p):
-        return []
-    with open(p) as f:
-        return json.load(f).get('findings', [])
+    if os.path.exists(p):
+        with open(p) as f:
+            out += json.load(f).get('findings', [])
+    d = os.path.join(VERIF, 'known_findings.d')
+    if os.path.isdir(d):
+        for fn in sorted(os.listdir(d)):
+            if fn.endswith('.json'):
+                with open(os.path.join(d, fn)) as f:
+                    out += json.load(f).get('findings', [])
+    return out
 
 
 def known_match(known, prop, proof_name, inputs):
@@ -48,7 +55,7 @@ def known_match(known, prop, proof_name, inputs):
         if k.get('status') != 'known' or k['property'] != prop or k.get('proof') not in (None, proof_name):
             continue
         try:
-            pred = eval(k['predicate'], {})     # predicate text is committed in /verif, never written at run time
+            pred = eval(k['predicate'], dict(vars(sys.modules.get(f"contracts.{prop.lower()}"))))   # committed text, helpers from the contract file
             if pred(**{a: inputs[a] for a in pred.__code__.co_varnames[:pred.__code__.co_argcount]}):
                 return k
         except Exception:       # noqa
